@@ -451,25 +451,53 @@ func (node *TopNode) getParts(src *syntax.CallStm,
 	boundNode.expandForks(true)
 	var errs syntax.ErrorList
 	parts := boundNode.forkIds.Table[src]
-	if len(parts) == 1 && parts[0].Id.IndexSource() != nil &&
-		(parts[0].Range == nil || parts[0].Range.Length() >= 0) {
-		matchingParts := make([]*ForkSourcePart, 0, len(boundNode.forks))
+	if len(parts) > 0 {
+		// One part for each distinct index of src among the forks which
+		// match the given fork ID, in index order.  The forks are the
+		// product of every map call the node is forked over, so the same
+		// index of src shows up once for every combination of the others.
+		matchingParts := make([]*ForkSourcePart, 0, len(parts))
+		type partKey struct {
+			part *ForkSourcePart
+			mode syntax.CallMode
+			idx  int
+			key  string
+		}
+		seen := make(map[partKey]struct{}, len(parts))
 		for _, fork := range boundNode.forks {
-			if p, err := fork.forkId.matchPart(parts[0].Split.Call); err != nil {
-				if parts[0].Split.Call == src {
-					errs = append(errs, &forkResolutionError{
-						Msg: "circular fork sources",
-					})
-				} else {
-					errs = append(errs, &elementError{
-						element: "unmatched call " + parts[0].Split.Call.GoString(),
-						inner:   err,
-					})
-				}
+			if p, err := fork.forkId.matchPart(src); err != nil {
+				errs = append(errs, &elementError{
+					element: "unmatched call " + src.GoString(),
+					inner:   err,
+				})
 			} else if fork.forkId.Matches(forkId) {
-				matchingParts = append(matchingParts, p)
+				var k partKey
+				if p.Id.IndexSource() != nil {
+					k.part = p
+				} else if k.mode = p.Id.Mode(); k.mode == syntax.ModeArrayCall {
+					k.idx = p.Id.ArrayIndex()
+				} else if k.mode == syntax.ModeMapCall {
+					k.key = p.Id.MapKey()
+				}
+				if _, ok := seen[k]; !ok {
+					seen[k] = struct{}{}
+					matchingParts = append(matchingParts, p)
+				}
 			}
 		}
+		sort.SliceStable(matchingParts, func(i, j int) bool {
+			a, b := matchingParts[i].Id, matchingParts[j].Id
+			if a.IndexSource() != nil || b.IndexSource() != nil || a.Mode() != b.Mode() {
+				return false
+			}
+			switch a.Mode() {
+			case syntax.ModeArrayCall:
+				return a.ArrayIndex() < b.ArrayIndex()
+			case syntax.ModeMapCall:
+				return a.MapKey() < b.MapKey()
+			}
+			return false
+		})
 		parts = matchingParts
 	} else if len(parts) == 0 && src.KnownLength() {
 		switch src.CallMode() {
@@ -509,39 +537,6 @@ func (node *TopNode) getParts(src *syntax.CallStm,
 					}
 					parts[i] = &partStore[i]
 				}
-			}
-		}
-	} else if len(boundNode.forks[0].forkId) > 1 {
-		id := make(ForkId, len(forkId), len(forkId)+1)
-		copy(id, forkId)
-		allow := func(part *ForkSourcePart) bool {
-			for _, fork := range boundNode.forks {
-				if fork.forkId.Matches(forkId) {
-					if p, err := fork.forkId.matchPart(part.Split.Call); err != nil {
-						errs = append(errs, &elementError{
-							element: "unmatched fork source " + part.Split.Call.GoString(),
-							inner:   err,
-						})
-					} else if indexEqual(p.Id, part.Id) {
-						return true
-					}
-				}
-			}
-			return false
-		}
-		for len(parts) > 0 && !allow(parts[0]) {
-			parts = parts[1:]
-		}
-		for len(parts) > 1 && !allow(parts[len(parts)-1]) {
-			parts = parts[:len(parts)-1]
-		}
-		alloc := false
-		for i := len(parts) - 1; i > 1; i-- {
-			if !alloc {
-				parts = append(parts[:i:i], parts[i+1:]...)
-				alloc = true
-			} else {
-				parts = append(parts[:i], parts[i+1:]...)
 			}
 		}
 	} else if len(parts) == 0 {
